@@ -37,7 +37,7 @@ def struct_digest(st):
                                    default=str).encode()).hexdigest()[:12]
 
 
-def solve_campaign(ctx, n_systems, gen_kw=None, case_kw=None, filt=None, variants=1, post=None, matrix=0, skel=0, skel_want=None, skel_big=False):
+def solve_campaign(ctx, n_systems, gen_kw=None, case_kw=None, filt=None, variants=1, post=None, matrix=0, skel=0, skel_want=None, skel_big=False, edit_p=0.35):
     """generate systems, solve, validate.  filt(state_dict) selects structures of interest;
     post(system, case list, rng, next id) may append further cases for the same system"""
     res = Result()
@@ -70,7 +70,7 @@ def solve_campaign(ctx, n_systems, gen_kw=None, case_kw=None, filt=None, variant
             structs.add(struct_digest(c["st"]))
             if post:
                 post(s, cases, rng)
-            if rng.random() < 0.35:
+            if rng.random() < edit_p:
                 edit_and_resolve(s, cases, rng, rr, kw)
             if has_mux(st[-1]["sys"]) and rng.random() < 0.3:
                 shared_list_twin(st, gen_kw, rng, cases, rr, kw)
@@ -184,14 +184,24 @@ def edit_and_resolve(s, cases, rng, rail_rep, kw):
         if st["sysph"] and r0 < 0.3:
             # the system phases are re-declared with other durations (24 h energies, averages and shares follow), or
             # cleared altogether: components keep their phase configuration, but only the unnamed phase "" is solved
-            if rng.random() < 0.6:
-                s.set_sys_phases({p["name"]: float("%.3g" % (rng.uniform(0.2, 5.0) * (i + 1))) for i, p in enumerate(st["sysph"])})
+            from decwire import cell as _c
+            r1 = rng.random()
+            if r1 < 0.4:
+                newph = {p["name"]: float("%.3g" % (rng.uniform(0.2, 5.0) * (i + 1))) for i, p in enumerate(st["sysph"])}
                 kw = dict(kw, energy=True)
                 what = "system phases re-declared with other durations"
+            elif r1 < 0.7:
+                # other names: one phase is kept, the others are replaced - the component configurations stay as they are
+                keep = st["sysph"][0]["name"]
+                newph = {"z1": 2.0, keep: 1.5, "z2": 0.25}
+                kw = {k: v for k, v in kw.items() if k != "phase"}
+                what = "system phases re-declared with other names"
             else:
-                s.set_sys_phases({})
+                newph = {}
                 kw = {k: v for k, v in kw.items() if k != "phase"}
                 what = "system phases cleared"
+            edit = {"op": "set_sys_phases", "args": {"phases": [{"name": k, "dur": _c(v)} for k, v in newph.items()]}, "pre": st}
+            s.set_sys_phases(newph)
         elif railrefs and r0 < 0.6:
             # a mux input that was declared through its rail gets another rail (or none): the mux keeps that input
             x = rng.choice(railrefs)
@@ -202,7 +212,7 @@ def edit_and_resolve(s, cases, rng, rail_rep, kw):
                 from rebuild import conf_of
                 s.set_comp_phases(x, conf_of(pc))
             what = "mux input %s (declared by rail) re-railed" % x
-        elif muxin and rng.random() < 0.6:
+        elif muxin and rng.random() < 0.8:
             # remove an intermediate component that is a mux input: the mux must keep its input order, with the removed
             # component's parent in its place (SysTree!DelCompEff)
             m, x = rng.choice(muxin)
@@ -301,10 +311,10 @@ STD_ASSUME = ["numbers are compared in exact decimal arithmetic with the two tol
 
 
 def _run(ctx, prop, n_q, n_t, rule, gen_kw=None, case_kw=None, filt=None, variants=1, post=None, extra_fixed=(), prefix=None, matrix=(0, 0),
-         skel=(0, 0), skel_want=None, skel_big=False):
+         skel=(0, 0), skel_want=None, skel_big=False, edit_p=0.35):
     n = n_q if ctx.quick else n_t
     res, cases = solve_campaign(ctx, n, gen_kw, case_kw, filt, variants, post, matrix=matrix[0] if ctx.quick else matrix[1],
-                                skel=skel[0] if ctx.quick else skel[1], skel_want=skel_want, skel_big=skel_big)
+                                skel=skel[0] if ctx.quick else skel[1], skel_want=skel_want, skel_big=skel_big, edit_p=edit_p)
     if prop in ("C01", "C02"):
         mc_laws(ctx, res)
     if extra_fixed:
@@ -354,11 +364,19 @@ def has_mux(sysst):
     return any(c["cls"] == "PMux" for c in sysst["comps"].values())
 
 
+def c04_case_kw(rng, s):
+    kw = std_case_kw(rng, s)
+    if rng.random() < 0.3:
+        # coarse solver tolerances: a dead rail is dead by structure, not by convergence
+        kw["vtol"], kw["itol"] = rng.choice([(1e-3, 1e-3), (1e-2, 1e-3), (1e-6, 1e-2)])
+    return kw
+
+
 def run_c04(ctx):
     return _run(ctx, "C04", 150, 3000,
                 "systems with 0 V sources, phase-inactive sources / converters / regulators / switches / muxes and muxes without "
                 "live input; every row below a dead element must be exactly zero, sleeping components draw exactly iis",
-                gen_kw=dict(neg=0.15, zero_src=0.3, tables=0.1), case_kw=std_case_kw, matrix=(200, 2000), skel=(200, 12000))
+                gen_kw=dict(neg=0.15, zero_src=0.3, tables=0.1), case_kw=c04_case_kw, matrix=(200, 2000), skel=(200, 12000))
 
 
 def run_c05(ctx):
@@ -366,7 +384,7 @@ def run_c05(ctx):
                 "systems with a PMux (1-4 inputs, fed from sources / components / the same source, scalar and per-input rs, "
                 "0 V and phase-inactive inputs); mux rows are held to the C05 clauses",
                 gen_kw=dict(neg=0.15, zero_src=0.3, tables=0.2), case_kw=std_case_kw, filt=has_mux, matrix=(200, 2000),
-                skel=(240, 12000), skel_big=True,
+                skel=(240, 12000), skel_big=True, edit_p=0.8,
                 skel_want=[lambda S: any(c["cls"] == "PMux" and len(S["par"][n]) > 1 for n, c in S["comps"].items()),
                            _regulated_input_of_other_source])
 
